@@ -48,7 +48,9 @@ def reqOk (o : ReqObs) : Bool :=
   (match o.req with
    | .control e _ _ =>
      (dst? e o.before != none || (!o.ranOwnHooksOrBody && !o.okResult)) &&   -- illegal ⇒ inert and refused
-     (o.okResult || o.notFound || o.after == .ERROR)                            -- failed API request ⇒ ERROR
+     -- failed API request ⇒ ERROR; a request that finds the environment DONE (it looked it up while a
+     -- teardown was in progress) is refused like any illegal one and — second clause above — leaves it DONE
+     (o.okResult || o.notFound || o.after == .ERROR || o.before == .DONE)
    | .try_ e _ _ => dst? e o.before != none || (!o.ranOwnHooksOrBody && !o.okResult && o.after == o.before)
    | .teardown f _ _ =>
      -- a teardown is legal from STANDBY / DEPLOYED, with force from anywhere but DONE; an illegal one is refused and inert
@@ -95,41 +97,15 @@ def specSegs : List Req → St → List (List IEv) → Bool
     | some o => reqOk o && specSegs qs o.after segs
   | _, _, _ => false
 
-/-- The first request (by index in mutex order) whose observation `reqOk` rejects, with that observation. -/
-def firstBad : List Req → St → List (List IEv) → Nat → Option (Nat × Option ReqObs)
-  | [], _, [], _ => none
-  | q :: qs, s, seg :: segs, n =>
-    match obsOf q s seg with
-    | none => some (n, none)
-    | some o => if reqOk o then firstBad qs o.after segs (n + 1) else some (n, some o)
-  | _, _, _, n => some (n, none)
-
-/-- Indices (in mutex order) of the requests that arrived while their predecessor was in progress. -/
-def heldIdx : List PReq → Nat → List Nat
-  | [], _ => []
-  | .one _ :: qs, n => heldIdx qs (n + 1)
-  | .par _ _ :: qs, n => (n + 1) :: heldIdx qs (n + 2)
-
-/-- Excluded hypothesis of `C01_graph_par_partial` (finding control_overlaps_teardown): the rejected
-    request is an API control request that arrived while a teardown was in progress and found the
-    environment in DONE when it got the mutex. -/
-def overlapHyp (preqs : List PReq) (bad : Nat × Option ReqObs) : Bool :=
-  (heldIdx preqs 0).contains bad.1 &&
-  (match bad.2 with
-   | some o => (match o.req with | .control .. => true | _ => false) && o.before == .DONE
-   | none => false)
-
 /-- Spec.C01 on an observed trace: vacuous outside the property's scope. -/
 def specC01 (reqs : List Req) (tr : ITrace) : Bool :=
   !reqs.all Req.inScope || specSegs reqs .STANDBY (segments tr [])
 
-/-- The same for request lists with overlapping pairs, with the excluded hypothesis (known
-    finding) a rejected observation falls under, if any. -/
+/-- The same for request lists with overlapping pairs (judged in the order in which the requests got
+    the mutex). No hypothesis is excluded any more: since the repair "ControlEnvironment does not force
+    ERROR on an environment that is DONE" the graph clause is proved for every list
+    (`C01_graph_par_code`), so a DONE → ERROR report is a plain violation. -/
 def specC01P (preqs : List PReq) (tr : ITrace) : Bool × String :=
-  let reqs := (preqs.map PReq.flat).flatten
-  if !reqs.all Req.inScope then (true, "-")
-  else match firstBad reqs .STANDBY (segments tr []) 0 with
-    | none => (true, "-")
-    | some bad => (false, if overlapHyp preqs bad then "control_overlaps_teardown" else "-")
+  (specC01 ((preqs.map PReq.flat).flatten) tr, "-")
 
 end EnvM
